@@ -192,6 +192,22 @@ theorem neq_is_not_eq (a b : Value) :
 
 /-! ## mirrors -/
 
+theorem instantCompare?_swap (a b : Instant) :
+    instantCompare? b a = (instantCompare? a b).map Ordering.swap := by
+  unfold instantCompare?
+  cases a.key <;> cases b.key <;> simp
+  exact Std.OrientedCmp.eq_swap
+
+theorem int_cmp_cases (x y : Int) :
+    (x < y ∧ compare x y = .lt) ∨ (x = y ∧ compare x y = .eq) ∨ (y < x ∧ compare x y = .gt) := by
+  rcases Int.lt_trichotomy x y with h | h | h
+  · exact .inl ⟨h, by simp [compare, compareOfLessAndEq, h]⟩
+  · exact .inr (.inl ⟨h, by simp [compare, compareOfLessAndEq, h]⟩)
+  · refine .inr (.inr ⟨h, ?_⟩)
+    have h1 : ¬ x < y := by omega
+    have h2 : ¬ x = y := by omega
+    simp [compare, compareOfLessAndEq, h1, h2]
+
 theorem lt_gt_mirror (a b : Value) : ltV a b = gtV b a := by
   cases a <;> cases b <;> simp [ltV, gtV]
   · rename_i x y; rw [Dec.cmp_swap x y]; cases Dec.cmp x y <;> rfl
@@ -199,6 +215,10 @@ theorem lt_gt_mirror (a b : Value) : ltV a b = gtV b a := by
   · rename_i y1 m1 d1 y2 m2 d2
     rw [datePartialCmp_eq, datePartialCmp_eq, dateTupleCmp_swap y1 m1 d1 y2 m2 d2]
     cases dateTupleCmp y1 m1 d1 y2 m2 d2 <;> rfl
+  · rename_i x y; rw [instantCompare?_swap x y]; cases instantCompare? x y <;> simp [optBool]
+    rename_i o; cases o <;> rfl
+  · rename_i x y; rw [instantCompare?_swap x y]; cases instantCompare? x y <;> simp [optBool]
+    rename_i o; cases o <;> rfl
 
 theorem le_ge_mirror (a b : Value) : leV a b = geV b a := by
   cases a <;> cases b <;> simp [leV, geV]
@@ -207,14 +227,42 @@ theorem le_ge_mirror (a b : Value) : leV a b = geV b a := by
   · rename_i y1 m1 d1 y2 m2 d2
     rw [datePartialCmp_eq, datePartialCmp_eq, dateTupleCmp_swap y1 m1 d1 y2 m2 d2]
     cases dateTupleCmp y1 m1 d1 y2 m2 d2 <;> rfl
+  · rename_i x y; rw [instantCompare?_swap x y]; cases instantCompare? x y <;> simp [optBool]
+    rename_i o; cases o <;> rfl
+  · rename_i x y; rw [instantCompare?_swap x y]; cases instantCompare? x y <;> simp [optBool]
+    rename_i o; cases o <;> rfl
 
-/-! ## ordered kinds: numbers, strings, dates -/
+/-! ## ordered kinds: numbers, strings, dates, durations, times and date-times -/
 
-/-- Both values are numbers, both strings, or both dates. -/
+/-- Both values are numbers, both strings, both dates, both durations of one kind, or both
+times / date-times with a position on the UTC line (`key`: absent when chrono cannot
+represent the instant, see C15). -/
 inductive SameOrderedKind : Value → Value → Prop
   | num (x y : Dec) : SameOrderedKind (.num x) (.num y)
   | str (x y : String) : SameOrderedKind (.str x) (.str y)
   | date (y1 : Int) (m1 d1 : Nat) (y2 : Int) (m2 d2 : Nat) : SameOrderedKind (.date y1 m1 d1) (.date y2 m2 d2)
+  | dtDur (x y : Int) : SameOrderedKind (.dtDur x) (.dtDur y)
+  | ymDur (x y : Int) : SameOrderedKind (.ymDur x) (.ymDur y)
+  | time (x y : Instant) (kx ky : Int) (hx : x.key = some kx) (hy : y.key = some ky) : SameOrderedKind (.time x) (.time y)
+  | dateTime (x y : Instant) (kx ky : Int) (hx : x.key = some kx) (hy : y.key = some ky) :
+      SameOrderedKind (.dateTime x) (.dateTime y)
+
+theorem int_ops (x y : Int) :
+    decide (x < y) = (compare x y == .lt) ∧ (x == y) = (compare x y == .eq) ∧ decide (x > y) = (compare x y == .gt) ∧
+    decide (x ≤ y) = (compare x y != .gt) ∧ decide (x ≥ y) = (compare x y != .lt) := by
+  rcases int_cmp_cases x y with ⟨h, hc⟩ | ⟨h, hc⟩ | ⟨h, hc⟩ <;> rw [hc]
+  · have h1 : ¬ x = y := by omega
+    have h2 : ¬ x > y := by omega
+    have h3 : x ≤ y := by omega
+    have h4 : ¬ x ≥ y := by omega
+    simp [h, h1, h2, h3, h4]
+  · subst h; simp
+  · have h1 : ¬ x = y := by omega
+    have h2 : ¬ x < y := by omega
+    have h3 : ¬ x ≤ y := by omega
+    have h4 : x ≥ y := by omega
+    have h5 : x > y := h
+    simp [h1, h2, h3, h4, h5]
 
 /-- The three comparisons of two values of one ordered kind, read off one `Ordering`. -/
 theorem ordered_ops (a b : Value) (h : SameOrderedKind a b) :
@@ -266,6 +314,22 @@ theorem ordered_ops (a b : Value) (h : SameOrderedKind a b) :
       cases dateTupleCmp y1 m1 d1 y2 m2 d2 <;> rfl
     · simp only [geV, datePartialCmp_eq]
       cases dateTupleCmp y1 m1 d1 y2 m2 d2 <;> rfl
+  | dtDur x y =>
+    obtain ⟨h1, h2, h3, h4, h5⟩ := int_ops x y
+    exact ⟨compare x y, by simp only [ltV, h1], by simp only [eqV, eqT, h2], by simp only [gtV, h3],
+      by simp only [leV, h4], by simp only [geV, h5]⟩
+  | ymDur x y =>
+    obtain ⟨h1, h2, h3, h4, h5⟩ := int_ops x y
+    exact ⟨compare x y, by simp only [ltV, h1], by simp only [eqV, eqT, h2], by simp only [gtV, h3],
+      by simp only [leV, h4], by simp only [geV, h5]⟩
+  | time x y kx ky hx hy =>
+    exact ⟨compare kx ky, by simp [ltV, instantCompare?, hx, hy, optBool], by simp [eqV, eqT, instantCompare?, hx, hy],
+      by simp [gtV, instantCompare?, hx, hy, optBool], by simp [leV, instantCompare?, hx, hy, optBool],
+      by simp [geV, instantCompare?, hx, hy, optBool]⟩
+  | dateTime x y kx ky hx hy =>
+    exact ⟨compare kx ky, by simp [ltV, instantCompare?, hx, hy, optBool], by simp [eqV, eqT, instantCompare?, hx, hy],
+      by simp [gtV, instantCompare?, hx, hy, optBool], by simp [leV, instantCompare?, hx, hy, optBool],
+      by simp [geV, instantCompare?, hx, hy, optBool]⟩
 
 /-- For two values of one ordered kind exactly one of `a < b`, `a = b`, `a > b` is true
 (and the other two are false, never null). -/
@@ -312,6 +376,30 @@ theorem in_range_is_conjunction (x a b : Value) (lc rc : Bool)
       rw [dateTupleCmp_swap y m d y1 m1 d1]
       cases lc <;> cases rc <;> cases dateTupleCmp y m d y1 m1 d1 <;>
         cases dateTupleCmp y m d y2 m2 d2 <;> rfl
+  | dtDur v a' =>
+    cases h2 with
+    | dtDur _ b' =>
+      cases lc <;> cases rc <;> simp [inRangeV, leV, ltV, and3, GE.ge, GT.gt]
+  | ymDur v a' =>
+    cases h2 with
+    | ymDur _ b' =>
+      cases lc <;> cases rc <;> simp [inRangeV, leV, ltV, and3, GE.ge, GT.gt]
+  | time x a kx ka hx ha =>
+    cases h2 with
+    | time _ b kx' kb hx' hb =>
+      have hk : kx' = kx := by rw [hx] at hx'; exact (Option.some.inj hx').symm
+      subst hk
+      simp only [inRangeV, leV, ltV, instantCompare?, hx, ha, hb, optBool, betweenOrd?, Option.map]
+      rw [show compare ka kx' = (compare kx' ka).swap from Std.OrientedCmp.eq_swap]
+      cases lc <;> cases rc <;> cases compare kx' ka <;> cases compare kx' kb <;> rfl
+  | dateTime x a kx ka hx ha =>
+    cases h2 with
+    | dateTime _ b kx' kb hx' hb =>
+      have hk : kx' = kx := by rw [hx] at hx'; exact (Option.some.inj hx').symm
+      subst hk
+      simp only [inRangeV, leV, ltV, instantCompare?, hx, ha, hb, optBool, betweenOrd?, Option.map]
+      rw [show compare ka kx' = (compare kx' ka).swap from Std.OrientedCmp.eq_swap]
+      cases lc <;> cases rc <;> cases compare kx' ka <;> cases compare kx' kb <;> rfl
 
 /-- `x between a and b`, `x in [a..b]` and `a <= x and x <= b` agree. -/
 theorem between_in_agree (x a b : Value) (h1 : SameOrderedKind x a) (h2 : SameOrderedKind x b) :
@@ -336,6 +424,20 @@ theorem between_in_agree (x a b : Value) (h1 : SameOrderedKind x a) (h2 : SameOr
     | date y m d y1 m1 d1 =>
       cases h2 with
       | date _ _ _ y2 m2 d2 => rfl
+    | dtDur v a' =>
+      cases h2 with
+        | dtDur _ b' =>
+        simp [betweenV, inRangeV, and3, GE.ge, GT.gt]
+    | ymDur v a' =>
+      cases h2 with
+        | ymDur _ b' =>
+        simp [betweenV, inRangeV, and3, GE.ge, GT.gt]
+    | time x a kx ka hx ha =>
+      cases h2 with
+      | time _ b kx' kb hx' hb => rfl
+    | dateTime x a kx ka hx ha =>
+      cases h2 with
+      | dateTime _ b kx' kb hx' hb => rfl
   · rw [← h]
     cases h1 with
     | num v a' =>
@@ -353,6 +455,20 @@ theorem between_in_agree (x a b : Value) (h1 : SameOrderedKind x a) (h2 : SameOr
     | date y m d y1 m1 d1 =>
       cases h2 with
       | date _ _ _ y2 m2 d2 => rfl
+    | dtDur v a' =>
+      cases h2 with
+        | dtDur _ b' =>
+        simp [betweenV, inRangeV, and3, GE.ge, GT.gt]
+    | ymDur v a' =>
+      cases h2 with
+        | ymDur _ b' =>
+        simp [betweenV, inRangeV, and3, GE.ge, GT.gt]
+    | time x a kx ka hx ha =>
+      cases h2 with
+      | time _ b kx' kb hx' hb => rfl
+    | dateTime x a kx ka hx ha =>
+      cases h2 with
+      | dateTime _ b kx' kb hx' hb => rfl
 
 /-! ## non-vacuity -/
 
@@ -361,5 +477,8 @@ example : WF (.ctx [("a", .num ⟨false, 1, 0⟩), ("b", .str "x")]) ∧
   simp [WF, WFEntries, Ctx.WF]
 
 example : SameOrderedKind (.date 999999 1 1) (.date 999999 1 2) := .date ..
+example : SameOrderedKind (.dtDur 86400000000000) (.dtDur (-1)) := .dtDur ..
+example : SameOrderedKind (.dateTime ⟨"2021-01-01T00:00:00Z", some 0⟩) (.dateTime ⟨"2021-01-01T00:00:01Z", some 1000000000⟩) :=
+  .dateTime _ _ 0 1000000000 rfl rfl
 
 end Dmn.Value
